@@ -232,7 +232,11 @@ class Ctx:
         out_lines = []
         reported = 0
         seen_known = set()
+        seen_keys = set()
         for v in self.violations:
+            if v['key'] in seen_keys:
+                continue
+            seen_keys.add(v['key'])
             match = next((f for f in known if fnmatch.fnmatchcase(v['key'], f['key'])), None)
             if match is not None:
                 if match['key'] not in seen_known:
